@@ -46,6 +46,16 @@ pub struct BatchRec {
     pub bytes_len: usize,
 }
 
+pub struct ServiceProbe {
+    pub kind: char,
+    pub node: usize,
+    pub to: usize,
+    pub digest: Digest,
+    pub tx: Vec<u8>,
+    pub t_us: u64,
+    pub answered: bool,
+}
+
 pub struct Ext {
     pub n: usize,
     qc_memo: HashMap<Digest, bool>,
@@ -93,6 +103,7 @@ pub struct Ext {
     w2_timeout: (Round, u64),
     w2_acting: (Round, u64),
     w2_qc_committed_to: (Round, u64),
+    pub service_probes: Vec<ServiceProbe>,
 }
 
 impl Ext {
@@ -136,6 +147,7 @@ impl Ext {
             w2_timeout: (0, 0),
             w2_acting: (0, 0),
             w2_qc_committed_to: (0, 0),
+            service_probes: Vec::new(),
         }
     }
 }
@@ -379,6 +391,11 @@ fn consensus_written(o: &mut Observer, ev: &TapEvent, m: &ConsensusMessage) {
             let d = ident::block_digest(b);
             if b.author == me {
                 // Own proposal (reliable broadcast; retransmissions repeat earlier frames).
+                for p in o.ext.service_probes.iter_mut() {
+                    if p.kind == 'b' && !p.answered && p.node == i && p.to == dst && p.digest == d {
+                        p.answered = true;
+                    }
+                }
                 o.ext.authored[i].insert(d.clone());
                 o.ext.children.entry(b.qc.hash.clone()).or_default();
                 let first = !o.ext.proposal_first_emission[i].contains_key(&(dst, d.clone()));
@@ -441,6 +458,11 @@ fn consensus_written(o: &mut Observer, ev: &TapEvent, m: &ConsensusMessage) {
             } else {
                 // A block of another author leaving node i: a sync reply by its helper.
                 o.probe("C07.sync-reply");
+                for p in o.ext.service_probes.iter_mut() {
+                    if p.kind == 'b' && !p.answered && p.node == i && p.to == dst && p.digest == d {
+                        p.answered = true;
+                    }
+                }
                 let cid = ident::content_id(b);
                 let author_honest = o.idx(&b.author).map_or(false, |a| o.is_honest_node(a));
                 let orig = o.blocks.get(&d).map(|r| ident::content_id(&r.block));
@@ -706,6 +728,11 @@ fn mempool_frame(o: &mut Observer, ev: &TapEvent, phase: Phase, _fidx: u32, data
         MempoolMessage::Batch(txs) => {
             let d = ident::bytes_digest(data);
             if phase == Phase::Written {
+                for p in o.ext.service_probes.iter_mut() {
+                    if !p.answered && p.node == src && ((p.kind == 'm' && p.to == ev.dst() && p.digest == d) || (p.kind == 't' && txs.iter().any(|t| *t == p.tx))) {
+                        p.answered = true;
+                    }
+                }
                 o.ext.conn_reqs.entry(ev.conn).or_default().push(Some(d.clone()));
                 if !o.ext.batch_first_src.contains_key(&d) {
                     o.ext.batch_first_src.insert(d.clone(), (src, ev.seq));
@@ -829,7 +856,7 @@ pub fn on_store_write(o: &mut Observer, node: usize, key: &[u8], value: &[u8], v
     // ---- C11: content addressing of everything the mempool stores ---------------------------
     if key == vh.0 {
         o.probe("C11.batch-stored");
-        if let Ok(MempoolMessage::Batch(txs)) = bincode::deserialize::<MempoolMessage>(value) {
+        if let Some(MempoolMessage::Batch(txs)) = crate::obs::safe_deserialize::<MempoolMessage>(value) {
             crate::monitors_batch::on_batch_stored(o, node, vh, &txs);
         }
         // Own batch? Then a quorum must have acknowledged it by now (C12).
@@ -839,12 +866,12 @@ pub fn on_store_write(o: &mut Observer, node: usize, key: &[u8], value: &[u8], v
         }
     } else {
         // Not content-addressed: it must be a consensus block stored under its digest.
-        match bincode::deserialize::<Block>(value) {
-            Ok(b) if ident::block_digest(&b).0 == key => {
+        match crate::obs::safe_deserialize::<Block>(value) {
+            Some(b) if ident::block_digest(&b).0 == key => {
                 o.probe("store.block-written");
             }
             _ => {
-                let is_batch = bincode::deserialize::<MempoolMessage>(value).map_or(false, |m| matches!(m, MempoolMessage::Batch(_)));
+                let is_batch = crate::obs::safe_deserialize::<MempoolMessage>(value).map_or(false, |m| matches!(m, MempoolMessage::Batch(_)));
                 let kd = {
                     let mut k = [0u8; 32];
                     let n = key.len().min(32);
@@ -862,6 +889,25 @@ pub fn on_store_write(o: &mut Observer, node: usize, key: &[u8], value: &[u8], v
 }
 
 pub fn on_end(o: &mut Observer, end_us: u64) {
+    // C15: services must still work after hostile input.
+    let probes = std::mem::take(&mut o.ext.service_probes);
+    for p in &probes {
+        let ok = match p.kind {
+            'c' => o.nodes[p.node].commits.iter().any(|c| c.t_us > p.t_us),
+            _ => p.answered,
+        };
+        if ok {
+            o.probe(&format!("C15.service-ok.{}", p.kind));
+        } else {
+            let what = match p.kind {
+                'b' => "did not answer a sync request for a block it stores",
+                'm' => "did not answer a batch request for a batch it stores",
+                't' => "did not put a fresh client transaction into a batch",
+                _ => "committed nothing any more",
+            };
+            o.violate("C15", &format!("service-down.{}", p.kind), Some(p.node), format!("after the hostile input node {} {} (probe at {} us, run ended at {} us)", p.node, what, p.t_us, end_us));
+        }
+    }
     // C05: commits that no certified consecutive 2-chain justifies.
     for i in 0..o.n {
         if !o.is_honest_node(i) {
